@@ -281,6 +281,50 @@ func initIntrinsics() {
 			vc.storeStruct(st, ref, sT, vc.freshVal(st, sT, "unmarshalled"))
 			return vc.freshVal(st, rt, "unmarshal.err")
 		}}
+	// JSON decoding into a value: the same frame (the fields of the target struct become arbitrary, nothing else
+	// changes); additionally the verdict is a function of the text: it decodes (result == nil) iff govjson_ok(text)
+	junm := &intrinsic{doc: "json.Unmarshal(bz, v): never panics; overwrites the fields of the struct v points to with arbitrary values of their types; returns nil iff the text decodes (uninterpreted predicate govjson_ok of the text)",
+		mods: unm.mods,
+		exec: func(vc *VC, fr *frame, st *State, c *ssa.CallCommon, args []Val, rt types.Type, pos token.Pos) Val {
+			var res Val
+			handled := false
+			if mi, ok := c.Args[1].(*ssa.MakeInterface); ok {
+				if _, isPS := isPointerToStruct(mi.X.Type()); !isPS {
+					// the target is the address of a local variable that is not a struct (typically a pointer
+					// variable: Unmarshal(bz, &p)): that variable becomes arbitrary (the decoder may allocate what it
+					// points to); nothing else reachable changes
+					tv := vc.operand(fr, st, mi.X)
+					if tv.K == VScalar && tv.T != nil {
+						// a pointer (reference) to a heap cell holding a non-struct value
+						if pt0, ok := mi.X.Type().Underlying().(*types.Pointer); ok {
+							tv = Val{K: VAddr, A: &Addr{K: AMem, Ref: tv.T, ET: pt0.Elem()}}
+						}
+					}
+					if pt, isPtr := mi.X.Type().Underlying().(*types.Pointer); isPtr && tv.K == VAddr && tv.A != nil && (tv.A.K == ACell || tv.A.K == AMem) {
+						t := pt.Elem()
+						if _, isStruct := structOf(t); !isStruct {
+							a := vc.allocCounter(st)
+							na := vc.P.Fresh("$A@jsonunmarshal", SInt)
+							vc.assume(st, vc.P.Le(a, na))
+							st.heap[allocKey] = na
+							vc.store(fr, st, tv, t, vc.freshVal(st, t, "unmarshalled"), pos)
+							res = vc.freshVal(st, rt, "unmarshal.err")
+							handled = true
+						}
+					}
+				}
+			}
+			if !handled {
+				res = unm.exec(vc, fr, st, c, args, rt, pos)
+			}
+			if len(args) > 0 && args[0].K == VSlice {
+				ok := vc.P.App("spec$govjson_ok", SBool, vc.bytesContent(st, args[0]))
+				vc.assume(st, vc.P.Eq(vc.P.Eq(vc.asInt(res), vc.P.Int(0)), ok))
+			}
+			return res
+		}}
+	t["github.com/tendermint/tendermint/libs/json.Unmarshal"] = junm
+	t["encoding/json.Unmarshal"] = junm
 	t["google.golang.org/protobuf/proto.Unmarshal"] = unm
 	t["github.com/gogo/protobuf/proto.Unmarshal"] = unm
 	t["github.com/golang/protobuf/proto.Unmarshal"] = unm
